@@ -120,6 +120,8 @@ func sessZ(s pool.Session) z3 {
 	return z3{s.DC, keyIndex(s.AuthKey.Value[:], s.AuthKey.ID[:]), s.Salt}
 }
 
+var histNo, zeroEmitted int
+
 func runHist(c *hx.Ctx, kind string, h Hist) {
 	c.Obs.Evaluations++
 	mem := &session.StorageMemory{}
@@ -311,6 +313,30 @@ func runHist(c *hx.Ctx, kind string, h Hist) {
 		}
 	}
 	term := fmt.Sprintf("CHist %s %s %s %s %s", hx.Z(int64(init)), hx.List(evL), hx.List(obsL), rc, cc)
+	// thorough tier: every history goes through the oracle, one in five (and every history with a
+	// violation, so that known findings stay correspondence cases) through the Coq model
+	histNo++
+	if c.Thorough() && kind == "gen" && len(viols) == 0 && histNo%5 != 0 {
+		c.Count("oracle-only-history")
+		return
+	}
+	if c.Thorough() && kind == "gen" && len(viols) > 0 {
+		// histories whose only violations are of the known class: the first 400 are emitted and
+		// reported (correspondence cases), the rest are judged and counted
+		onlyZero := true
+		for _, v := range viols {
+			if v.sig != "server-reports-this-dc-0" {
+				onlyZero = false
+			}
+		}
+		if onlyZero {
+			zeroEmitted++
+			if zeroEmitted > 400 {
+				c.Count("known-class-history-judged-not-emitted")
+				return
+			}
+		}
+	}
 	sh, ix := c.Case(term, map[string]interface{}{"hist": h, "init_seen": init, "obs": obsJ, "regs": rj, "cdns": cj})
 	c.Count(fmt.Sprintf("%s:len=%d", kind, len(h.Evs)/4*4))
 	if nSaves > 0 && nIgnored > 0 {
@@ -585,7 +611,7 @@ func main() {
 		{K: "notify", ConnDC: 1, Reported: 1, Key: 0, Perm: 0, Salt: 0},
 		{K: "restore"}}})
 	// restore groups are spread over the shards (SHA-1 in the VM costs ~0.13 s per record)
-	nh, ng := c.N(400, 10000), c.N(4, 40)
+	nh, ng := c.N(400, 5000), c.N(4, 12)
 	for i, g := 0, 0; i < nh; i++ {
 		runHist(c, "gen", genHist(c.Rng))
 		if g < ng && i%(nh/ng) == nh/ng-1 {
